@@ -94,7 +94,8 @@ def write_epub(book: dict, opf_dir: str = "OEBPS") -> bytes:
                 man = f'<item id="ch{n}" href="page{n}.svg" media-type="image/svg+xml"/>' + man
             spine += f'<itemref idref="ch{n}"/>'
             continue
-        files[f"{pre}ch{n}.xhtml"] = write_html(ch, xhtml=True)
+        files[f"{pre}ch{n}.xhtml"] = (ch["raw_xhtml"].encode() if isinstance(ch, dict) and "raw_xhtml" in ch
+                                      else write_html(ch, xhtml=True))
         man = f'<item id="ch{n}" href="ch{n}.xhtml" media-type="application/xhtml+xml"/>' + man   # manifest order != spine order
         spine += f'<itemref idref="ch{n}"/>'
     for k, img in enumerate(book.get("images") or [], start=1):
